@@ -61,6 +61,16 @@ Theorem describe_then_rebuild env hn H u5 fs jl jd sev sp sd f t v o :
 Proof. exact (Reparse.describe_then_rebuild env hn H u5 fs jl jd sev sp sd f t v o). Qed.
 Print Assumptions describe_then_rebuild.
 
+(* envelope level: re-creating from the description parse shows serialises the parsed tree itself, after update_severable_digests
+   and update_digest have recomputed the digests over it *)
+Theorem parse_then_create env hn H u5 fs jl jd sev sprep sp sd f b o v :
+  from_cbor env jd f (TRef (s2b "SuitEnvelopeTagged")) b = Ok v -> st env hn H u5 fs jl jd sev sp sd (TRef (s2b "SuitEnvelopeTagged")) v ->
+  parse env jd f (s2b "SuitEnvelopeTagged") b = Ok o ->
+  create env hn H u5 fs jl jd sev sprep sp sd f o
+  = (let* e2 := apply_steps env hn H sev (fun t' v' => to_cbor env f t' v') (s2b "SuitEnvelopeTagged") sprep v in to_cbor env f (TRef (s2b "SuitEnvelopeTagged")) e2).
+Proof. intros Hfc Hst Hp. exact (Reparse.parse_then_create env hn H u5 fs jl jd sev sp sd sprep f _ b o v Hfc Hst Hp eq_refl). Qed.
+Print Assumptions parse_then_create.
+
 (* non-vacuity: a digest tuple (enumerated algorithm name + bytes) of the regenerated table is stable, and is rebuilt *)
 Example digest_tuple_stable hn H u5 fs jl jd sev sp sd :
   exists fields, lookup (s2b "SuitDigestRaw") types = Some (TTuple fields) /\ tuple_ok fields
